@@ -53,6 +53,7 @@ FUNCS = [
     "Fluid.gas_FVF",
     "Fluid.gas_viscosity",
 ]
+_ZERO_D: list = []  # [(0-d parameter array, its value before the calls), ...] of the current case
 OILY = {"b_o_Standing", "solution_gor_Standing", "Fluid.oil_FVF", "Fluid.oil_viscosity"}
 REACH = None
 
@@ -142,6 +143,8 @@ def generate(ck):
                 "pressures": [wl.f(v) for v in p],
                 "contains_pb": with_pb,
                 "kw": bool(rng.random() < 0.3),
+                "zero_d_params": bool(rng.random() < 0.15),
+                "as_series": bool(rng.random() < 0.15),
                 "long": (int(rng.choice([12001, 20000, 50001] if fn.startswith("Fluid.gas") else [50001, 70001, 140001, 262145])) if (i % 29 == 13 and (fn.startswith("Fluid.gas") or fn in ("b_o_Standing", "Fluid.oil_FVF", "viscosity_water_McCain", "oil_compressibility_undersat_Spivey", "solution_gor_Standing"))) else None),
                 "threads": [wl.oil_params(rng) for _ in range(3)] if i % 90 == 17 else None,
             }
@@ -182,6 +185,17 @@ def _callables(desc):
         T = int(round(T))
     if desc.get("int_params"):
         T, api, gor = int(round(T)), int(round(api)), int(round(gor))
+    zero_d = []
+    if desc.get("zero_d_params"):
+        # fluid parameters that arrive as 0-d arrays (np.asarray(x), np.squeeze of a one-cell table,
+        # xarray .values): ordinary values in an array wrapper - and still the caller's after the call
+        T, api, gg, gor = (np.asarray(float(v)) for v in (T, api, gg, gor))
+        zero_d = [(T, float(T)), (api, float(api)), (gg, float(gg)), (gor, float(gor))]
+    _ZERO_D[:] = []
+    _ZERO_D.append(zero_d)
+
+    def plain(a):
+        return float(a) if isinstance(a, np.ndarray) and a.ndim == 0 else a
     fn = desc["fn"]
     sal, Tw = desc["salinity"], desc["water_T"]
     if desc["int_temperature"]:
@@ -197,7 +211,7 @@ def _callables(desc):
             call = lambda x: g(**{n: (x if i == k else a) for i, (n, a) in enumerate(zip(names, args))})  # noqa: E731
         else:
             call = lambda x: g(*[x if i == k else a for i, a in enumerate(args)])  # noqa: E731
-        return call, (lambda x: g(*[x if i == k else a for i, a in enumerate(args)]))
+        return call, (lambda x: g(*[x if i == k else plain(a) for i, a in enumerate(args)]))
 
     if fn in ("b_o_Standing", "solution_gor_Standing", "oil_compressibility_undersat_Spivey"):
         return both(getattr(oil, fn), T, None, api, gg, gor)
@@ -207,22 +221,28 @@ def _callables(desc):
         return both(getattr(water, fn), Tw, None, sal)
     fl = Fluid(T if fn.startswith("Fluid.oil") else Tw, api, gg, gor, salinity=sal)
     m = getattr(fl, fn.split(".")[1])
+    m_ref = getattr(Fluid(plain(T) if fn.startswith("Fluid.oil") else Tw, plain(api), plain(gg), plain(gor), salinity=sal), fn.split(".")[1])
     if fn.startswith("Fluid.gas"):
         Tpc, ppc = desc["Tpc"], desc["ppc"]
-        fl = Fluid(max(T, 100.0), api, gg, gor, salinity=sal)
+        Tg_ = max(float(T), 100.0)
+        if zero_d:
+            Tg_, Tpc, ppc = np.asarray(Tg_), np.asarray(float(Tpc)), np.asarray(float(ppc))
+            zero_d += [(Tg_, float(Tg_)), (Tpc, float(Tpc)), (ppc, float(ppc))]
+        fl = Fluid(Tg_, api, gg, gor, salinity=sal)
         m = getattr(fl, fn.split(".")[1])
+        m_ref = getattr(Fluid(plain(Tg_), plain(api), plain(gg), plain(gor), salinity=sal), fn.split(".")[1])
         if desc.get("kw"):
             import inspect
 
             n0, n1, n2 = list(inspect.signature(m).parameters)[:3]
-            return (lambda p: m(**{n0: p, n1: Tpc, n2: ppc})), (lambda x: m(np.array([x], dtype="f8"), Tpc, ppc)[0])
-        return (lambda p: m(p, Tpc, ppc)), (lambda x: m(np.array([x], dtype="f8"), Tpc, ppc)[0])
+            return (lambda p: m(**{n0: p, n1: Tpc, n2: ppc})), (lambda x: m_ref(np.array([x], dtype="f8"), plain(Tpc), plain(ppc))[0])
+        return (lambda p: m(p, Tpc, ppc)), (lambda x: m_ref(np.array([x], dtype="f8"), plain(Tpc), plain(ppc))[0])
     if desc.get("kw"):
         import inspect
 
         n0 = list(inspect.signature(m).parameters)[0]
-        return (lambda p: m(**{n0: p})), (lambda x: np.asarray(m(np.array([x], dtype="f8"))).reshape(-1)[0])
-    return (lambda p: m(p)), (lambda x: np.asarray(m(np.array([x], dtype="f8"))).reshape(-1)[0])
+        return (lambda p: m(**{n0: p})), (lambda x: np.asarray(m_ref(np.array([x], dtype="f8"))).reshape(-1)[0])
+    return (lambda p: m(p)), (lambda x: np.asarray(m_ref(np.array([x], dtype="f8"))).reshape(-1)[0])
 
 
 def run_case(ck, desc):
@@ -266,6 +286,25 @@ def run_case(ck, desc):
     view_before = view.copy()
     arr_call, sc_call = _callables(desc)
     out = arr_call(view)
+    for obj_, val_ in (_ZERO_D[0] if _ZERO_D else []):
+        if float(obj_) != val_:
+            ck.violation("input-unmodified", {"fn": desc["fn"], "what": "a fluid parameter passed as a 0-d array", "before": val_, "after": float(obj_)}, desc)
+            break
+    if _ZERO_D and _ZERO_D[0]:
+        ck.count("calls_with_0d_array_parameters")
+    if desc.get("as_series") and view.ndim == 1 and view.shape[0] >= 2 and not desc["fn"].startswith("Fluid."):
+        # the pressures as a pandas Series whose integer labels are NOT the positions (a frame read
+        # top-down and reversed, or sorted): elements are taken by position
+        import pandas as pd
+
+        ser = pd.Series(np.array(view), index=np.arange(len(view))[::-1])
+        try:
+            o_s = np.asarray(arr_call(ser), dtype=float)
+            if o_s.shape != np.shape(out) or not np.array_equal(o_s, np.asarray(out, dtype=float), equal_nan=True):
+                ck.violation("elementwise", {"fn": desc["fn"], "form": "pandas Series with a reversed integer index", "max_abs": float(np.nanmax(np.abs(o_s - np.asarray(out, dtype=float)))) if o_s.shape == np.shape(out) else None}, desc)
+            ck.count("series_with_permuted_integer_index")
+        except Exception as e:  # noqa: BLE001
+            ck.count(f"series_form_not_accepted.{type(e).__name__}")
     ck.count(f"array_calls.{desc['fn']}")
     ck.count(f"dtype.{desc['dtype']}")
     ck.count(f"layout.{desc['layout']}")
